@@ -9,6 +9,7 @@ import (
 	"math/rand"
 	"net"
 	"os"
+	"runtime"
 
 	tq "github.com/facebookincubator/tacquito"
 )
@@ -35,6 +36,11 @@ type Scen struct {
 	ID   string `json:"id"`
 	Key  []int  `json:"key,omitempty"`
 	Pkts []Pkt  `json:"pkts"`
+	// stream mode (C05): all packets are written as one byte stream cut into chunks
+	Stream bool   `json:"stream,omitempty"`
+	Cuts   []int  `json:"cuts,omitempty"` // chunk sizes; the rest goes into a final chunk
+	End    string `json:"end,omitempty"`  // idle | eof | fire
+	Trunc  int    `json:"trunc,omitempty"` // cut this many octets off the end of the stream
 }
 
 // ---- the runner ----------------------------------------------------------------------
@@ -58,6 +64,8 @@ type chaosRun struct {
 	nconn   int
 	// secrets are handed to the server as sub-slices of one arena (two consecutive scenarios'
 	// keys lie next to each other, as sub-slices of a configuration buffer would)
+	stream    *Scen
+	invCount  int
 	logKey    []byte
 	arena     []byte
 	preplaced []byte // key slice of the next scenario, already placed behind the current one
@@ -75,6 +83,11 @@ type chaosH struct {
 
 func (h *chaosH) Handle(resp tq.Response, req tq.Request) {
 	r := h.run
+	if r.stream != nil && r.invCount < len(r.stream.Pkts) {
+		r.curPkt = &r.stream.Pkts[r.invCount]
+		r.invCount++
+		r.feedIdx = r.invCount
+	}
 	p := r.curPkt
 	hd := req.Header
 	r.rec.Emit(E{"e": "inv", "hid": h.hid, "sid": U32(uint32(hd.SessionID)), "seq": int(hd.SeqNo), "ty": int(hd.Type),
@@ -350,6 +363,11 @@ func (r *chaosRun) runScenario(sc, next *Scen) {
 	r.conn = conn
 	r.lis.Offer(conn)
 	closed := conn.WaitQuiesce()
+	r.stream = nil
+	if sc.Stream {
+		r.runStream(sc, conn)
+		return
+	}
 	for i := range sc.Pkts {
 		if closed {
 			break
@@ -399,6 +417,69 @@ func (r *chaosRun) runScenario(sc, next *Scen) {
 		conn.WaitQuiesce()
 		r.gauges("q")
 	}
+}
+
+// runStream: the packets of the scenario as one byte stream, cut into the given chunks.
+func (r *chaosRun) runStream(sc *Scen, conn *FakeConn) {
+	r.stream = sc
+	r.invCount = 0
+	var all []byte
+	pk := []E{}
+	for i := range sc.Pkts {
+		r.curPkt = &sc.Pkts[i]
+		hdr, wire, _ := r.packetBytes(&sc.Pkts[i])
+		pk = append(pk, E{"h": B(hdr), "b": B(wire)})
+		all = append(all, hdr...)
+		all = append(all, wire...)
+	}
+	r.curPkt = nil
+	if sc.Trunc > 0 && sc.Trunc < len(all) {
+		all = all[:len(all)-sc.Trunc]
+	}
+	cuts := sc.Cuts
+	if cuts == nil {
+		cuts = []int{}
+	}
+	r.rec.Emit(E{"e": "stream", "pk": pk, "n": len(all), "cuts": cuts, "end": sc.End, "trunc": sc.Trunc, "sk": B(r.logKey)})
+	var chunks [][]byte
+	rest := all
+	for _, k := range cuts {
+		if k <= 0 || len(rest) == 0 {
+			continue
+		}
+		if k > len(rest) {
+			k = len(rest)
+		}
+		chunks = append(chunks, rest[:k])
+		rest = rest[k:]
+	}
+	if len(rest) > 0 {
+		chunks = append(chunks, rest)
+	}
+	var m0, m1 runtime.MemStats
+	runtime.ReadMemStats(&m0)
+	conn.Feed(chunks...)
+	switch sc.End {
+	case "eof":
+		conn.EOF()
+	}
+	closed := conn.WaitQuiesce()
+	blockedBeforeEnd := !closed
+	if !closed && sc.End == "fire" {
+		r.rec.Emit(E{"e": "fire"})
+		conn.Fire()
+		closed = conn.WaitQuiesce()
+	}
+	runtime.ReadMemStats(&m1)
+	r.rec.Emit(E{"e": "send", "closed": closed, "blocked": blockedBeforeEnd, "alloc": int(m1.TotalAlloc - m0.TotalAlloc), "reads": conn.Reads})
+	r.gauges("q")
+	if !closed {
+		r.rec.Emit(E{"e": "eof"})
+		conn.EOF()
+		conn.WaitQuiesce()
+		r.gauges("q")
+	}
+	r.stream = nil
 }
 
 func cmdChaos(args []string) {
